@@ -585,6 +585,36 @@ let handle (fields : string list) : string * string =
           then "fail:legacy-out-closed-silent-host"
           else "fail:" ^ (match what with [] -> "lifecycle-differs" | _ -> String.concat "+" what) ^ "@" ^ _transport ^ "/" ^ _cause
         end)
+  | "kdc" :: meth :: cl :: body :: spec :: impl :: [] ->
+    let to_b str = List.map (fun c -> byte_of_int (Char.code c)) (List.of_seq (String.to_seq str)) in
+    let be32 n = [byte_of_int ((n lsr 24) land 255); byte_of_int ((n lsr 16) land 255); byte_of_int ((n lsr 8) land 255); byte_of_int (n land 255)] in
+    let per = List.map (fun k -> match split_on '/' k with
+        | [t; u; r] -> (t, u, bytes_of_hex r) | _ -> failwith "bad kdc spec") (split_on ',' spec) in
+    let udp = List.map (fun (_, u, r) -> { k_proto = Udp; k_does = (match u with "reply" -> KReply r | "silent" -> KSilent | _ -> KRefuse) }) per in
+    let tcp = List.map (fun (t, _, r) -> { k_proto = Tcp; k_does = (match t with
+        | "reply-close" | "reply-hold" -> KReply (be32 (List.length r) @ r)
+        | "partial" | "close" -> KPartial | "silent" -> KSilent | _ -> KRefuse) }) per in
+    let kdcs = udp @ tcp in
+    let realms r = if r = [] || r = to_b "EXAMPLE.TEST" then Some kdcs else None in
+    let m =
+      (match Model.validate0 (if meth = "POST" then MPost else MOtherMethod)
+               (if cl = "none" then None else Some (n_of_int (int_of_string cl))) with
+       | Some code -> Printf.sprintf "st=%d in-time" (int_of_n code)
+       | None ->
+         (match Model.handle (bytes_of_hex body) realms with
+          | PStatus c -> Printf.sprintf "st=%d in-time" (int_of_n c)
+          | PReply b ->
+            (* the harness decodes the returned KDC-PROXY-MESSAGE with the library: the model's encoding must decode to the reply *)
+            (match Model.decode_req b with
+             | Some (msg, _) -> Printf.sprintf "st=200 reply=%s in-time" (hex_of_bytes msg)
+             | None -> "st=200 reply=undecodable in-time"))) in
+    (m, if m = impl then "ok"
+        else if impl = "no-response in-time" || impl = "no-response late" then "fail:no-http-response"
+        else if List.mem "late" (split_on ' ' impl) then "fail:answer-not-within-bound"
+        else "fail:kdc-proxy-differs")
+  | "kdcrecv" :: _set :: _i :: impl :: [] ->
+    let bad = List.exists (fun t -> String.length t > 10 && String.sub t 0 10 = "badframes=" && t <> "badframes=0") (split_on ' ' impl) in
+    (impl, if bad then "fail:kdc-received-misframed-request" else "ok")
   | k :: _ -> failwith ("unknown kind " ^ k)
   | [] -> failwith "empty line"
 
